@@ -110,6 +110,10 @@ STRENGTHENED.update({
     "c20-9": "C20 missed it at first; loop turns that pass through the last or only member of a container before going on without backtracking (`[. + 1][]`, `{a: ...}[]`, split, to_entries, keys) in until / tail recursion / recurse / reduce",
     "c20-10": "C20 missed it at first, twice: long recurse/2 chains were added, and then the quadratic time of the seeded definition exhausted the instruction budget (inconclusive); the footprint is now also read at the point where the budget ends a run and compared with an early checkpoint",
 })
+STRENGTHENED.update({
+    "c03-6": "the first evaluation had credited C03 with violations that belonged to a defect of the then-unfixed tree (D30); the re-evaluation of every change against the final tree showed that C03 missed it. New kind c03.hugeindex: 14 positions at and beyond 2^63 in every representation x 6 arrays and strings x 11 index / slice / delete forms against saturation",
+    "c03-8": "same as c03-6 (first credited by mistake, found missed by the final re-evaluation). New kind c03.company: `[A, B]` must be `[A alone, B alone]` in both orders, for 12 pattern/flags pairs whose concatenations coincide in either order x 7 regular-expression functions; the same collisions were added to the history kind of C19 and the rerun workload of C05",
+})
 # changes that were confirmed but are not violations of the property as given (both behaviours are accepted by the checks)
 NOT_A_VIOLATION = {
     "c15-6": "after a malformed document in a file that is not the last one, the unchanged command goes on with the next file, the changed one stops. C16 says of a malformed document 'every complete value before it, then one error, then end of input' and C15 speaks of runtime errors of the query only; neither property decides whether the files named later are still read, so the checks accept both (DESIGN 9.2, 'not defects')",
